@@ -88,7 +88,9 @@ func RunOne(t *testing.T, w World, prop, tier string, tape *Tape, ix uint64) *Re
 	body := func() {
 		start := time.Now()
 		defer func() {
-			k.SimTime = time.Since(start)
+			if w.Bubble(prop) {
+				k.SimTime = time.Since(start)
+			}
 			if r := recover(); r != nil {
 				if _, ok := r.(stopRun); ok {
 					return
